@@ -731,7 +731,7 @@ def generate(prop, rng, tier):
             yield "exhaustive/n3", c
     if prop == "C20":
         count = {"quick": 700, "thorough": 6000, "search": 2000}[tier]
-    fr = {"C01": 0.08, "C02": 0.4, "C03": 0.1, "C20": 0.0}[prop]
+    fr = {"C01": 0.08, "C02": 0.4, "C03": 0.1, "C20": 0.15}[prop]   # C20: hook failures happen with the checks on AND off
     ir = {"C01": 0.2, "C02": 0.25, "C03": 0.1, "C20": 0.0}[prop]
     for i in range(count):
         cls = "Node" if prop == "C03" else None
